@@ -246,6 +246,9 @@ class IrfParameter(Contract):
         if case["shift"]:
             shp, shv = _params(S, "sh", ng)
             kw["shift"] = shp
+        if case.get("axis_dtype") and not S.symbolic:
+            # native sweep: the global axis as loaded from files (integer wavelengths, float32, descending)
+            axis = np.array([round(float(v)) for v in axis]).astype(case["axis_dtype"])
         inp = {"cv": cv, "wv": wv, "sv": sv, "shv": shv, "axis": axis, "ng": ng}
         if case["kind"] == "multi":
             inp["irf"] = IrfMultiGaussian(label="irf", center=cp, width=wp, **kw)
@@ -316,6 +319,32 @@ class IrfParameter(Contract):
         if "none_index" in out:
             c, w, sh = out["none_index"]
             yield "index_independent_call_gives_plain_parameters", L.and_(*[L.eq(c[g], cv[g]) for g in range(n)], *[L.eq(w[g], wv[g]) for g in range(n)], L.eq(sh, 0.0))
+
+
+def _irf_parameter_sweep(self, tier, seed):
+    """B: native runs with global axes of the dtypes data files produce (int64/int32/float64 wavelengths; float32 left out: the axis value then carries float32 rounding, which the exact postcondition would misreport)."""
+    from contracts.common import native_sweep
+
+    cases = [
+        {"kind": "spectral", "nc": 2, "nw": 2, "oc": oc, "ow": ow, "wavenumber": wn, "shift": sh, "scale": False, "axis_dtype": dt}
+        for dt in ("int64", "int32", "float64")
+        for wn in (False, True)
+        for (oc, ow, sh) in ((2, 1, False), (1, 3, True))
+    ]
+
+    def env(case, rng):
+        lams = rng.sample(range(350, 800), 3)
+        e = {f"lam_{i}": float(v) for i, v in enumerate(lams)}
+        e["dc_0"] = float(rng.choice([500, 550, 620]))
+        for nm, n in (("c", 2), ("w", 2), ("cd", case["oc"]), ("wd", case["ow"]), ("sh", 3)):
+            for i in range(n):
+                e[f"{nm}_{i}"] = round(rng.uniform(0.1, 2.0), 3)
+        return e
+
+    return native_sweep(self, cases, envs=env, tries=3, seed=seed)
+
+
+IrfParameter.bounded_checks = _irf_parameter_sweep
 
 
 class ImplementationPerIndex(Contract):
